@@ -35,7 +35,7 @@ def states(tier, seed):
     # production-size beams (element indexing of the stress recovery beyond ny = 5)
     for lay, (side, ny), model in itertools.product(["swept", "twdi"], [("left", 21), ("full", 41), ("left", 16)], ["tube", "wingbox"]):
         st.append(dict(part="stress", layout=lay, side=side, ny=ny, model=model, fam=fam))
-    for N, model, pat, mag, yld, rho in itertools.product(range(1, 9), ["tube", "wingbox"], ["equal", "peak", "ladder", "zeros", "two_max"], [0.0, 1.0, 1e6, 1e9, 1e12], [1.0, 2e8], [10.0, 100.0]):
+    for N, model, pat, mag, yld, rho in itertools.product(range(1, 9), ["tube", "wingbox"], ["equal", "peak", "ladder", "zeros", "two_max"], [0.0, 1.0, 1e6, 1e9, 1e12], [1.0, 2e8], [10.0, 100.0, 1000.0, 5000.0]):  # rho: library default 100, coarse 10, sharp 1e3 / 5e3 (every exponent except the largest underflows on a safe structure)
         st.append(dict(part="ks", N=N, model=model, pattern=pat, mag=mag, yld=yld, rho=rho, fam=fam))
     # the distances that turn curvature into the extreme-fibre bending stresses of the wingbox (htop, hbottom): geometric depth of
     # the element's own (scaled, twisted) section, for airfoil data whose upper and lower surfaces are sampled at different stations
